@@ -19,7 +19,7 @@ future; once the future has resolved `Ok` it is exactly the `TLoop` of `Permits.
 
 `failed` is the future resolving `Err`: `context` (the negotiated connection) and `protocol_set` are
 dropped without a loop having been spawned, so nobody would ever send `ConnectionClosed` for it. The
-theorem `accept_never_abandons` (Props/C07) shows that the code as it is never gets there.
+theorem `accept_established_then_closed` (Props/C07) shows that the code as it is never gets there.
 -/
 namespace Litep2pVerif.Conn
 
